@@ -253,6 +253,16 @@ var fixedRoots = []fixed{
 	{"d8", "3r3b/p7/1p3p2/1NPp1k2/1n4p1/P3R1K1/2P5/8 w - - 0 47", nil},
 	{"d8", "3r3b/p7/1p3p2/1NPpkP2/1n4p1/P3R1K1/2P5/8 b - - 4 46", nil},
 	{"zugzwang", "8/8/p1p5/1p5p/1P5p/8/PPP2K1p/4R1rk w - - 0 1", nil},
+	{"tiny", "8/8/8/4k3/8/8/4P3/4K3 w - - 0 1", nil},
+	{"tiny", "8/8/8/4k3/8/8/4P3/4K3 b - - 0 1", nil},
+	{"tiny", "8/8/8/4k3/8/8/8/R3K3 w - - 0 1", nil},
+	{"tiny", "8/8/8/4k3/8/8/8/Q3K3 b - - 0 1", nil},
+	{"tiny", "8/8/8/4k3/8/8/8/1NB1K3 w - - 0 1", nil},
+	{"tiny", "8/4p3/8/4k3/8/8/8/R3K3 w - - 0 1", nil},
+	{"tiny", "8/8/3rk3/8/8/8/8/Q3K3 w - - 0 1", nil},
+	{"tiny", "8/4p3/8/4k3/8/8/4P3/4K3 w - - 0 1", nil},
+	{"tiny", "8/2p5/3p4/KP5r/1R3p1k/8/4P1P1/8 w - - 0 1", nil},
+	{"tiny", "8/8/1k6/8/2pP4/8/5K2/8 b - d3 0 1", nil},
 	{"double-check", "4k3/8/8/8/8/2n5/3r4/3K4 w - - 0 1", nil},
 }
 
@@ -262,6 +272,7 @@ type pools struct {
 	fewReply  []*root
 	live      []*root // non-final
 	cheap     []*root // few men: deep searches stay small
+	tiny      []*root // at most 5 men (or class tiny): depth 9..12 is affordable
 	perftLike []*root
 }
 
@@ -295,6 +306,9 @@ func (e *env) collect() *pools {
 			}
 			if men(rt.key) <= 8 {
 				p.cheap = append(p.cheap, rt)
+			}
+			if men(rt.key) <= 5 || rt.class == "tiny" {
+				p.tiny = append(p.tiny, rt)
 			}
 		}
 		e.r.Count("root:"+rt.class, 1)
@@ -973,7 +987,7 @@ func (g *gen) generate() {
 		g.emit(sc)
 	}
 	// … and random larger budgets
-	for i := 0; i < T(100, 600); i++ {
+	for i := 0; i < T(80, 600); i++ {
 		rt := g.pick(p.live)
 		sc := newScript("budget-random", g.buckets())
 		gs := plain(rt, 2+r.IntN(g.maxD-1))
@@ -1138,11 +1152,21 @@ func (g *gen) generate() {
 		g.emit(sc)
 	}
 	// (g) deep searches of small positions (long variations, mate scores, null-move / LMR / IIR territory)
-	for i := 0; i < T(40, 300) && len(p.cheap) > 0; i++ {
+	for i := 0; i < T(30, 300) && len(p.cheap) > 0; i++ {
 		rt := g.pick(p.cheap)
 		sc := newScript("deep-small", g.buckets())
 		gs := plain(rt, g.maxD+1+r.IntN(3))
 		gs.nodes = T(8000, 60000)
+		sc.add(gs)
+		g.emit(sc)
+	}
+	// (h) very deep searches of positions with a handful of men: the depth-gated rules (reverse futility
+	// d < 8, internal iterative reduction d > 5, late-move reduction table rows up to 12) at their limits
+	for i := 0; i < T(24, 120) && len(p.tiny) > 0; i++ {
+		rt := g.pick(p.tiny)
+		sc := newScript("deep-tiny", g.buckets())
+		gs := plain(rt, 9+r.IntN(4))
+		gs.nodes = T(4000, 40000)
 		sc.add(gs)
 		g.emit(sc)
 	}
